@@ -281,3 +281,50 @@ Qed.
 Theorem nothing_before_delay_ends p a d evs s :
   run (init_cst p a d) evs = Some s -> delayed s = true -> outframes s = [].
 Proof. intros R D. apply (out_delay _ (oi_out _ (reachable_OInv _ _ _ _ _ R)) D). Qed.
+
+(* ---------- nothing is left in the buffer when the container returns (C13) ---------- *)
+Definition FinalText (s : cst) : Prop := final_done s = true -> done_seen s = true /\ texts (cwbuf s) = [].
+
+Lemma FinalText_init p a d : FinalText (init_cst p a d).
+Proof. intros H. cbn in H. discriminate. Qed.
+
+Lemma step_FinalText s e s' : step s e = Some s' -> FinalText s -> FinalText s'.
+Proof.
+  intros H I. unfold FinalText in *.
+  destruct e; break_step H; use_fifo_pop; simp_state; try assumption;
+    repeat match goal with |- context [if ?c then _ else _] => destruct c end; simp_state; try assumption.
+  all: repeat match goal with
+    | Hi : _ && _ = true |- _ => apply andb_prop in Hi as [? ?]
+    | Hi : negb _ = true |- _ => apply negb_true_iff in Hi
+    | Hi : negb _ = false |- _ => apply negb_false_iff in Hi
+    end.
+  (* a write closure or the end of the delay cannot run once done was seen *)
+  all: try (intros F; destruct (I F) as [D _]; congruence).
+  (* CT_DONE *)
+  all: try (intros F; destruct (I F) as [D T]; split; [reflexivity|exact T]).
+  (* CT_FRAME: the buffer is left with the cursor-up only *)
+  all: intros F; split;
+       [ apply orb_true_iff in F as [F|F]; [destruct (I F); assumption|exact F]
+       | try reflexivity ].
+Qed.
+
+Theorem reachable_FinalText p a d evs s : run (init_cst p a d) evs = Some s -> FinalText s.
+Proof.
+  unfold run. generalize (FinalText_init p a d). generalize (init_cst p a d).
+  induction evs as [|e evs IH]; cbn; intros s0 I H.
+  - inversion H; subst; exact I.
+  - destruct (step s0 e) as [s1|] eqn:E; [|discriminate]. apply (IH s1); auto. eapply step_FinalText; eauto.
+Qed.
+
+(* auto refresh, no render error: when the container goroutine returns, every line it accepted has been written *)
+Theorem all_text_written_at_exit p a d evs s s' :
+  run (init_cst p a d) evs = Some s -> step s CT_EXIT = Some s' ->
+  auto_mode s = true -> errored s = false -> delayed s = false ->
+  texts (concat (rev (outframes s'))) = wlog s' /\ texts (cwbuf s') = [].
+Proof.
+  intros R E A Er D. unfold step in E. destruct (done_seen s && is_idle s && _) eqn:G; [|discriminate].
+  inversion E; subst; clear E. simp_state.
+  apply andb_prop in G as [_ G]. rewrite A, Er in G. cbn in G. rewrite orb_false_r in G.
+  destruct (reachable_FinalText _ _ _ _ _ R G) as [_ T].
+  pose proof (text_once_in_order _ _ _ _ _ R D) as W. rewrite T, app_nil_r in W. auto.
+Qed.
